@@ -1,7 +1,7 @@
 SPECIFICATION Spec
 CONSTANTS
   M = 8
-  MaxLines = 4
+  MaxLines = 5
   PostErr = 0
   Drift = 6
   Future = 4
